@@ -46,8 +46,12 @@ type RSAClientParams struct {
 func (rp *RSAPublicKey) MarshalJSON() ([]byte, error) {
 	var aux auxRSAPublicKey
 	if rp.PublicKey != nil {
-		aux.Exponent = json.Number(rp.E.String())
-		aux.Modulus = rp.N.Bytes()
+		if rp.E != nil {
+			aux.Exponent = json.Number(rp.E.String())
+		}
+		if rp.N != nil {
+			aux.Modulus = rp.N.Bytes()
+		}
 		aux.Length = len(aux.Modulus) * 8
 	}
 	return json.Marshal(&aux)
